@@ -1,10 +1,15 @@
 \* generation (quick): all histories of 3 calls
 SPECIFICATION Spec
 CONSTANTS
-  Cell = 128
+  ResSizes = {40, 100, 300}
+  Aligns = {32, 128, 512}
+  ResizeTo = {0, 200, 512, 1024}
+  MaxPoolBytes = 2048
   Sizes = {48}
-  MaxCells = 2
+  MaxLiveRes = 3
   MaxBufs = 3
   MaxPools = 1
   MaxHist = 3
   HostPtrImpl = "counted"
+  Prefixes <- NoPrefix
+CONSTRAINT PrefixOK
